@@ -6,12 +6,14 @@ import AL.Spec.Looser
   * `LooserW` ("weak"): like `Looser`, but the `deref` flag of arrays is ignored altogether. Everything
     that never looks at the flag (`assignable`, `validCompare`) is monotone for it, and both `Looser`
     and `LooserD` are contained in it.
-  * `LooserD` ("deref aware"): the invariant that `Sema.check` really preserves. The flag may be
-    switched on (`false ↦ true`: `objDerefTy` accepts more then), and a *plain* array on the loose side
-    (`deref = false`) may have element type `any` only if the element type was `any` before.  The second
-    clause is forced by `ArrayType.Merge`, which returns the receiver when its element type is `any`,
-    else the argument when the argument's element type is `any`: loosening `array<number>` to
-    `array<any>` flips which side (and hence which `deref` flag) wins.
+  * `LooserD` ("deref aware"): the invariant that `Sema.check` really preserves: like `Looser`, but the
+    `deref` flag of an array may be switched on (`false ↦ true`). A dereferenced array is never worse for
+    acceptance (`objDerefTy` accepts more, nothing else looks at the flag), and `ArrayType.Merge` can
+    switch it on when a side is loosened: `array<number>.Merge(array<number>)` has `Deref = false`
+    (pinned by a test of the Go code), while with an `any` element type the flags are or-ed.
+    `Looser` is contained in `LooserD` (`LooserD.of_looser`).
+  (Before the repair of `ArrayType.Merge` — the result's flag was the flag of whichever side was
+  returned — `LooserD` needed an extra clause forbidding `array<T> ↦ array<any>` on plain arrays.)
   Neither relation has a `refl` constructor (reflexivity is a lemma), so inversion by `cases` is exact.
 -/
 namespace AL.Ty
@@ -44,8 +46,7 @@ inductive LooserD : Ty → Ty → Prop
   | number : LooserD .number .number
   | bool : LooserD .bool .bool
   | string : LooserD .string .string
-  | arr {e e' : Ty} {d d' : Bool} : LooserD e e' →
-      (d' = true ∨ (d = false ∧ (e' = .any → e = .any))) → LooserD (.arr e d) (.arr e' d')
+  | arr {e e' : Ty} {d d' : Bool} : LooserD e e' → (d = true → d' = true) → LooserD (.arr e d) (.arr e' d')
   | obj {ps ps' : List (String × Ty)} {m m' : Option Ty} :
       LooserDProps ps ps' → LooserDMapped m m' → LooserD (.obj ps m) (.obj ps' m')
 inductive LooserDProps : List (String × Ty) → List (String × Ty) → Prop
@@ -82,7 +83,7 @@ theorem LooserD.refl : (t : Ty) → LooserD t t
   | .number => .number
   | .bool => .bool
   | .string => .string
-  | .arr e d => .arr (LooserD.refl e) (by cases d <;> simp)
+  | .arr e _ => .arr (LooserD.refl e) id
   | .obj ps none => .obj (LooserDProps.refl ps) .none
   | .obj ps (some t) => .obj (LooserDProps.refl ps) (.some (LooserD.refl t))
 theorem LooserDProps.refl : (ps : List (String × Ty)) → LooserDProps ps ps
@@ -133,53 +134,20 @@ theorem LooserDMapped.toW : {m m' : Option Ty} → LooserDMapped m m' → Looser
   | _, _, .some h => .some (LooserD.toW h)
 end
 
-/-! `Looser` is contained in `LooserD` as long as no plain array has its element type replaced by
-`any`: `ArrSafe t t'` says exactly that, along a `Looser` derivation. -/
+/-- plain `Looser` embeds into `LooserD` -/
 mutual
-inductive ArrSafe : Ty → Ty → Prop
-  | refl (t : Ty) : ArrSafe t t
-  | toAny (t : Ty) : ArrSafe t .any
-  | arr {e e' : Ty} (d : Bool) : ArrSafe e e' → (d = true ∨ (e' = .any → e = .any)) → ArrSafe (.arr e d) (.arr e' d)
-  | obj {ps ps' : List (String × Ty)} {m m' : Option Ty} :
-      ArrSafeProps ps ps' → ArrSafeMapped m m' → ArrSafe (.obj ps m) (.obj ps' m')
-inductive ArrSafeProps : List (String × Ty) → List (String × Ty) → Prop
-  | nil : ArrSafeProps [] []
-  | cons {k : String} {t t' : Ty} {ps ps' : List (String × Ty)} :
-      ArrSafe t t' → ArrSafeProps ps ps' → ArrSafeProps ((k, t) :: ps) ((k, t') :: ps')
-inductive ArrSafeMapped : Option Ty → Option Ty → Prop
-  | none : ArrSafeMapped none none
-  | opened : ArrSafeMapped none (some .any)
-  | some {t t' : Ty} : ArrSafe t t' → ArrSafeMapped (some t) (some t')
-end
-
-mutual
-theorem ArrSafe.toD : {t t' : Ty} → ArrSafe t t' → LooserD t t'
+theorem LooserD.of_looser : {t t' : Ty} → Looser t t' → LooserD t t'
   | _, _, .refl t => LooserD.refl t
   | _, _, .toAny t => .any t
-  | _, _, .arr d h hd => .arr (ArrSafe.toD h) (by cases d <;> simp_all)
-  | _, _, .obj hp hm => .obj (ArrSafeProps.toD hp) (ArrSafeMapped.toD hm)
-theorem ArrSafeProps.toD : {ps ps' : List (String × Ty)} → ArrSafeProps ps ps' → LooserDProps ps ps'
+  | _, _, .arr _ h => .arr (LooserD.of_looser h) id
+  | _, _, .obj hp hm => .obj (LooserDProps.of_looser hp) (LooserDMapped.of_looser hm)
+theorem LooserDProps.of_looser : {ps ps' : List (String × Ty)} → LooserProps ps ps' → LooserDProps ps ps'
   | _, _, .nil => .nil
-  | _, _, .cons h hr => .cons (ArrSafe.toD h) (ArrSafeProps.toD hr)
-theorem ArrSafeMapped.toD : {m m' : Option Ty} → ArrSafeMapped m m' → LooserDMapped m m'
+  | _, _, .cons h hr => .cons (LooserD.of_looser h) (LooserDProps.of_looser hr)
+theorem LooserDMapped.of_looser : {m m' : Option Ty} → LooserMapped m m' → LooserDMapped m m'
   | _, _, .none => .none
   | _, _, .opened => .opened
-  | _, _, .some h => .some (ArrSafe.toD h)
-end
-
-mutual
-theorem ArrSafe.toLooser : {t t' : Ty} → ArrSafe t t' → Looser t t'
-  | _, _, .refl t => .refl t
-  | _, _, .toAny t => .toAny t
-  | _, _, .arr d h _ => .arr d (ArrSafe.toLooser h)
-  | _, _, .obj hp hm => .obj (ArrSafeProps.toLooser hp) (ArrSafeMapped.toLooser hm)
-theorem ArrSafeProps.toLooser : {ps ps' : List (String × Ty)} → ArrSafeProps ps ps' → LooserProps ps ps'
-  | _, _, .nil => .nil
-  | _, _, .cons h hr => .cons (ArrSafe.toLooser h) (ArrSafeProps.toLooser hr)
-theorem ArrSafeMapped.toLooser : {m m' : Option Ty} → ArrSafeMapped m m' → LooserMapped m m'
-  | _, _, .none => .none
-  | _, _, .opened => .opened
-  | _, _, .some h => .some (ArrSafe.toLooser h)
+  | _, _, .some h => .some (LooserD.of_looser h)
 end
 
 /-! ### small inversions -/
@@ -195,6 +163,10 @@ theorem LooserDProps.lookup {k : String} : {ps ps' : List (String × Ty)} → Lo
     by_cases hk : k' = k
     · exact .inr ⟨t, t', by simp [Ty.lookup, hk], by simp [Ty.lookup, hk], h⟩
     · simpa [Ty.lookup, hk] using LooserDProps.lookup hr
+
+theorem LooserDProps.head_key {k k' : String} {t t' : Ty} {ps ps' : List (String × Ty)}
+    (h : LooserDProps ((k, t) :: ps) ((k', t') :: ps')) : k = k' := by
+  cases h; rfl
 
 theorem LooserDProps.isEmpty {ps ps' : List (String × Ty)} (h : LooserDProps ps ps') :
     ps'.isEmpty = ps.isEmpty := by cases h <;> rfl
